@@ -287,6 +287,20 @@ fn stream_refcheck(rep: &mut Report, drv: &mut Driver, rng: &mut Rng, n: usize) 
                 rep.violation(Violation { kind: "correspondence", stream: st.name.clone(), signature: "C02:reader-model".into(), what: format!("character data {with_cdend:?} (doctype {dt}): the transform {} it, the model's readerAccepts {} it", if i_ok { "accepts" } else { "refuses" }, if m_ok { "accepts" } else { "refuses" }), replay: json!({"input": doc, "has_root": true}), confirmed_on_impl: false });
             }
         }
+        // ... and the start-tag side: the string as an attribute value of a real-SVG element
+        if !t.contains('"') && !t.contains('>') {
+            let pre = if dt { "<!DOCTYPE svg>" } else { "" };
+            let doc = format!("{pre}<svg xmlns=\"http://www.w3.org/2000/svg\"><rect data-x=\"{t}\"/></svg>");
+            let tag = format!("rect data-x=\"{t}\"");
+            let r = drv.call("reader_accepts", &["0", if dt { "1" } else { "0" }, &tag])?;
+            let m_ok = r.first().map(|x| x.as_str()) == Some("ok");
+            let i_ok = matches!(transform(&doc, &default_cfg()), Ok(Ok(_)));
+            st.tally(if i_ok { "tag-accepted" } else { "tag-refused" });
+            if m_ok != i_ok {
+                ok = false;
+                rep.violation(Violation { kind: "correspondence", stream: st.name.clone(), signature: "C02:reader-model".into(), what: format!("attribute value {t:?} (doctype {dt}): the transform {} it, the model's readerAccepts {} it", if i_ok { "accepts" } else { "refuses" }, if m_ok { "accepts" } else { "refuses" }), replay: json!({"input": doc, "has_root": true}), confirmed_on_impl: false });
+            }
+        }
         if ok { st.exact += 1; }
     }
     rep.streams.push(st);
